@@ -303,20 +303,29 @@ Section ListOps.
     - now apply bounded_Append.
   Qed.
 
+  Lemma tableRemove_in t pos :
+    1 <= pos <= Len t -> tableRemove2 t pos = (Some (fst (Remove t pos)), snd (Remove t pos)).
+  Proof.
+    intros H. unfold tableRemove2, tableRemove. simpl optz.
+    assert ((pos <? 1) || (Len t <? pos) = false) as -> by lia.
+    destruct (Remove t pos); reflexivity.
+  Qed.
+
   Lemma remove_pos_refines_lemma t n pos :
     bounded mai t -> len (arr t) + 1 < mai -> is_list (RawGet t) n -> 1 <= pos <= n ->
     let r := tableRemove2 t pos in
-    fst r = lnth (view (RawGet t) n) pos /\
+    fst r = Some (lnth (view (RawGet t) n) pos) /\
     is_list (RawGet (snd r)) (n - 1) /\
     view (RawGet (snd r)) (n - 1) = remove_at pos (view (RawGet t) n) /\
     (forall k, not_pos_int k -> RawGet (snd r) k = RawGet t k) /\
     bounded mai (snd r).
   Proof.
     intros B R L Hp r. pose proof (list_len t n B R L) as Ln.
-    destruct (RawGet_Remove mai t pos B ltac:(lia)) as [Hr Hk]. fold (tableRemove2 t pos) in Hr, Hk. fold r in Hr, Hk.
+    unfold r. rewrite tableRemove_in by lia. cbn [fst snd].
+    destruct (RawGet_Remove mai t pos B ltac:(lia)) as [Hr Hk].
     rewrite Ln in Hr, Hk. assert (Ep : pos <=? n = true) by lia. rewrite Ep in Hr, Hk.
     destruct L as (H0 & H1 & H2). split; [|split; [|split; [|split]]].
-    - rewrite Hr. symmetry. apply lnth_view; lia.
+    - rewrite Hr. f_equal. symmetry. apply lnth_view; lia.
     - pose proof (is_list_remove (RawGet t) n pos (conj H0 (conj H1 H2)) Hp) as (A0 & A1 & A2).
       split; [assumption|]. split; intros i Hi; rewrite Hk; auto.
     - rewrite <- view_remove by lia. unfold view. apply map_ext. intros i. apply Hk.
@@ -325,33 +334,64 @@ Section ListOps.
     - now apply bounded_Remove.
   Qed.
 
-  (* table.remove(t) = table.remove(t, #t) (after the fix of C18-1) *)
+  (* table.remove(t) = table.remove(t, #t) *)
   Lemma remove_default_refines_lemma t n :
     bounded mai t -> len (arr t) + 1 < mai -> is_list (RawGet t) n ->
     tableRemove1 t = tableRemove2 t n.
-  Proof. intros B R L. unfold tableRemove1, tableRemove2. now rewrite (list_len t n B R L). Qed.
-
-  Lemma remove_empty_lemma t :
-    bounded mai t -> len (arr t) + 1 < mai -> is_list (RawGet t) 0 ->
-    fst (tableRemove1 t) = VNil /\ forall k, RawGet (snd (tableRemove1 t)) k = RawGet t k.
   Proof.
-    intros B R L. pose proof (list_len t 0 B R L) as Ln. unfold tableRemove1. rewrite Ln.
-    unfold Remove. rewrite Len_lastnn in Ln. destruct (lastnn_spec (arr t)) as (_ & _ & Bd). rewrite Ln in Bd.
-    pose proof (len_nonneg (arr t)) as Hl.
-    destruct (len (arr t) =? 0) eqn:E0; [split; reflexivity|].
-    destruct (len (arr t) <=? 0 - 1) eqn:E1; [lia|].
-    assert ((0 - 1 =? len (arr t) - 1) || (0 - 1 <? 0) = true) as -> by lia. simpl. split; [apply Bd; lia|].
-    intros k. destruct (is_array_key mai k) eqn:Ea.
-    - destruct k; try discriminate. rewrite !RawGet_arr by assumption. simpl arr. simpl in Ea.
-      rewrite nthv_firstn. rewrite (Bd (z - 1)) by lia. destruct (z - 1 <? _); reflexivity.
-    - now apply RawGet_with_arr_hash.
+    intros B R L. unfold tableRemove1, tableRemove2, tableRemove. simpl optz.
+    now rewrite (list_len t n B R L).
   Qed.
 
+  (* a position outside 1..n (in particular any call on the empty list): no result, no change *)
+  Lemma remove_outside_lemma t n opos :
+    bounded mai t -> len (arr t) + 1 < mai -> is_list (RawGet t) n ->
+    optz opos n < 1 \/ n < optz opos n ->
+    tableRemove t opos = (None, t).
+  Proof.
+    intros B R L H. unfold tableRemove. rewrite (list_len t n B R L).
+    assert ((optz opos n <? 1) || (n <? optz opos n) = true) as -> by lia. reflexivity.
+  Qed.
+
+  Lemma dump_arr_in a : forall i0 k v,
+    In (k, v) (dump_arr a i0) ->
+    exists j, 0 <= j < len a /\ k = KInt (i0 + j + 1) /\ nthv a j = v /\ v <> VNil.
+  Proof.
+    induction a as [|x a IH]; intros i0 k v H; simpl in H; [contradiction|].
+    destruct (is_nil x) eqn:Ex.
+    - destruct (IH _ _ _ H) as (j & Hj & Hk & Hv & Hn). exists (j + 1). rewrite len_cons.
+      repeat split; try lia; auto. + subst k. f_equal. lia. + rewrite nthv_cons_S by lia. now replace (j + 1 - 1) with j by lia.
+    - destruct H as [H|H].
+      + inversion H; subst. exists 0. rewrite len_cons. pose proof (len_nonneg a).
+        repeat split; try lia; auto. * f_equal. lia. * now apply is_nil_false.
+      + destruct (IH _ _ _ H) as (j & Hj & Hk & Hv & Hn). exists (j + 1). rewrite len_cons.
+        repeat split; try lia; auto. * subst k. f_equal. lia. * rewrite nthv_cons_S by lia. now replace (j + 1 - 1) with j by lia.
+  Qed.
+
+  Lemma fold_max_stable (l : list (key * value)) mx :
+    (forall p, In p l -> num_ltb mx (fst p) = false) ->
+    fold_left (fun m p => if num_ltb m (fst p) then fst p else m) l mx = mx.
+  Proof.
+    induction l as [|p l IH]; intros H; simpl; [reflexivity|].
+    rewrite (H p) by now left. apply IH. intros q Hq. apply H. now right.
+  Qed.
+
+  (* on a list whose hash part holds no numeric key above n, getn and maxn are n *)
   Lemma getn_maxn_lemma t n :
     bounded mai t -> len (arr t) + 1 < mai -> is_list (RawGet t) n ->
-    tableGetN t = n /\ tableMaxN t = n.
+    (forall k, In k (map fst (dict t)) -> num_ltb (KInt n) k = false) ->
+    tableGetN t = n /\ tableMaxN t = KInt n.
   Proof.
-    intros B R L. unfold tableGetN, tableMaxN. rewrite <- Len_MaxN. rewrite (list_len t n B R L). auto.
+    intros B R L Hd. pose proof (list_len t n B R L) as Ln. split; [exact Ln|].
+    unfold tableMaxN. rewrite <- Len_MaxN, Ln. apply fold_max_stable.
+    intros p Hp. unfold ForEach in Hp. apply in_app_or in Hp as [Hp|Hp].
+    - destruct p as [k v]. apply dump_arr_in in Hp as (j & Hj & -> & Hv & Hn). simpl fst.
+      rewrite Len_lastnn in Ln. destruct (lastnn_spec (arr t)) as (_ & _ & Bd).
+      assert (j < n). { destruct (Z_lt_le_dec j n); [assumption|]. exfalso. apply Hn. rewrite <- Hv. apply Bd. lia. }
+      unfold num_ltb. cbn. lia.
+    - apply in_app_or in Hp as [Hp|Hp].
+      + apply in_map_iff in Hp as (q & <- & _). reflexivity.
+      + apply Hd. apply filter_In in Hp as [Hp _]. apply in_map. exact Hp.
   Qed.
 End ListOps.
 
@@ -377,7 +417,7 @@ Section ListOps2.
     bounded mai t -> len (arr t) + 1 < mai -> is_list (RawGet t) n -> 1 <= optz oi 1 ->
     baseUnpack mai t oi oj = unpack_spec (view (RawGet t) n) (optz oi 1) (optz oj n).
   Proof.
-    intros B R L Hi. unfold baseUnpack, unpack_spec. rewrite (list_len mai t n B R L).
+    intros B R L Hi. unfold baseUnpack, unpack_spec, unpack_specf. rewrite (list_len mai t n B R L).
     apply map_ext_in. intros k Hk. rewrite RawGetInt_RawGet. symmetry. apply lnth_view_gen; [assumption|].
     assert (G : forall c a z, In z (zseq a c) -> a <= z).
     { induction c as [|c IH]; intros a z Hz; simpl in Hz; [contradiction|].
@@ -404,17 +444,12 @@ Section ListOps2.
 
   Lemma concat_refines_lemma t n sep oi oj :
     bounded mai t -> len (arr t) + 1 < mai -> is_list (RawGet t) n ->
-    1 <= optz oi 1 -> optz oj n <= n ->
+    1 <= optz oi 1 ->
     tableConcat mai t sep oi oj = concat_spec (view (RawGet t) n) sep (optz oi 1) (optz oj n).
   Proof.
-    intros B R L Hi Hj. unfold tableConcat, concat_spec. rewrite (list_len mai t n B R L).
-    set (i := optz oi 1) in *. set (j := optz oj n) in *.
-    destruct (j <? i) eqn:E.
-    - destruct (match oi with Some _ => match oj with Some _ => false | None => true end | None => false end && ((n <? i) || (i <? 1))); reflexivity.
-    - assert (Hin : i <= n) by lia.
-      assert (((n <? i) || (i <? 1)) = false) as -> by lia. rewrite andb_false_r.
-      replace (Z.max (Z.min i n) 1) with i by lia. replace (Z.min (Z.min j n) n) with j by lia.
-      rewrite E. unfold unpack_spec. apply concat_loop_spec; assumption.
+    intros B R L Hi. unfold tableConcat, concat_spec, concat_specf. rewrite (list_len mai t n B R L).
+    destruct (optz oj n <? optz oi 1); [reflexivity|].
+    unfold unpack_specf. apply concat_loop_spec; assumption.
   Qed.
 
   (* table.sort works on exactly t[1..#t] *)
